@@ -1540,7 +1540,10 @@ impl TestTextSelection for TextSelectionSet {
                 }
                 //ALL of the items in this set must match with ANY item in the otherset
                 for item in self.iter() {
-                    if !item.test_set(operator, refset, resource) {
+                    if !refset
+                        .iter()
+                        .any(|reftextsel| item.test(operator, reftextsel, resource))
+                    {
                         return false;
                     }
                 }
@@ -1831,6 +1834,16 @@ impl TestTextSelection for TextSelection {
         resource: &TextResource,
     ) -> bool {
         match operator {
+            TextSelectionOperator::Equals {
+                all: false,
+                negate: false,
+            } => {
+                // both sides must cover the exact same text selections: the set may hold nothing else
+                !refset.is_empty()
+                    && refset
+                        .iter()
+                        .all(|reftextsel| self.test(operator, reftextsel, resource))
+            }
             TextSelectionOperator::Embeds {
                 all: false,
                 negate: false,
@@ -1841,11 +1854,7 @@ impl TestTextSelection for TextSelection {
                         .iter()
                         .all(|reftextsel| self.test(operator, reftextsel, resource))
             }
-            TextSelectionOperator::Equals {
-                all: false,
-                negate: false,
-            }
-            | TextSelectionOperator::Overlaps {
+            TextSelectionOperator::Overlaps {
                 all: false,
                 negate: false,
             }
